@@ -354,7 +354,9 @@ var c18KeyValues = []string{"1", "10", "1-0", "2", "true", "false", "a", "ab", "
 	"YQ==", "YQ=", "cn=a", "cn=b", "a=b=c", "m:id", "-1", "a:b=c",
 	// and the element separator and the opening bracket (interface names, file names: accepted in later keys of a
 	// non-key leaf, in deletes and in JSON-valued updates)
-	"eth1/1", "eth1/10", "rack[7", "[0/1", "a/./b", "a/b"}
+	"eth1/1", "eth1/10", "rack[7", "[0/1", "a/./b", "a/b",
+	// different texts that are the same NUMBER (string keys are compared as text)
+	"01", "1.0", "007", "7", "7.0", "1.1", "1.10", "1e0", "0x1"}
 
 func c18GenKids(s c17Src, depth int) []*c18Node {
 	fam := c18Families[s.Intn(len(c18Families), "family")]
